@@ -68,11 +68,14 @@ impl Allocation {
 impl Drop for Allocation {
     #[track_caller]
     fn drop(&mut self) {
-        // When the model is failing the execution may not be reachable any
-        // more: e.g. a leak report unwinds through the `Execution` that owns
-        // the allocations made with `alloc`, outside of any modeled thread.
+        // The `Execution` owns the allocations made with `alloc`. When it is
+        // dropped, e.g. by a leak report unwinding out of the model, no modeled
+        // thread is running and the execution state cannot be reached.
         // Bookkeeping no longer matters then, and panicking again would abort.
-        if std::thread::panicking() {
+        //
+        // A value dropped by a panic that is caught inside the model is still
+        // dropped, so `panicking()` is not the condition to test.
+        if !rt::Scheduler::is_in_model() {
             return;
         }
 
